@@ -399,9 +399,9 @@ package cisco
 // entries count down from 65535, and neither counter ever moves back, so a
 // number once given (the counter is moved past it) is not given again.
 //vc:func matchCryptoMap
-//vc:  invariant[C01,C02,C18] 2 "for _, bSeq := range slices.Sorted(maps.Keys(bSeqMap))" @countersNeverMoveBack static >= loopold(static) && dynamic <= loopold(dynamic)
-//vc:  invariant[C01,C02,C18] 3 "for ; aSeqMap[*seq] != nil; *seq += incr" @searchMovesOutward static >= loopold(static) && dynamic <= loopold(dynamic) && ((seq == addr(static) && incr == 1) || (seq == addr(dynamic) && incr == 0 - 1))
-//vc:  assert[C01,C02,C18] at "f(nil, bSeqL)" @sequenceNumberFreeOnDevice !(deref(seq) in aSeqMap) || aSeqMap[deref(seq)] == nil
+//vc:  invariant[C01,C02,C18,C08] 2 "for _, bSeq := range slices.Sorted(maps.Keys(bSeqMap))" @countersNeverMoveBack static >= loopold(static) && dynamic <= loopold(dynamic)
+//vc:  invariant[C01,C02,C18,C08] 3 "for ; aSeqMap[*seq] != nil; *seq += incr" @searchMovesOutward static >= loopold(static) && dynamic <= loopold(dynamic) && ((seq == addr(static) && incr == 1) || (seq == addr(dynamic) && incr == 0 - 1))
+//vc:  assert[C01,C02,C18,C08] at "f(nil, bSeqL)" @sequenceNumberFreeOnDevice !(deref(seq) in aSeqMap) || aSeqMap[deref(seq)] == nil
 
 // diffASAACLs: a deleted device line that was matched with an added line (a
 // move) is removed from the lookup map: it must not be matched again by a second
@@ -554,3 +554,14 @@ package cisco
 //vc:func (*State).checkIOSInterfaces$1
 //vc:  inline
 //vc:  assert[C07,C02] at "l[j] = sc" @interfaceDefinitionLinesNotDiffed sc.parsed != "shutdown" && !strings.CutPrefix$1(sc.parsed, "ip address ") && !strings.HasPrefix(sc.parsed, "ip unnumbered") && !strings.HasPrefix(sc.parsed, "ip inspect") && !strings.Cut$2(sc.parsed, "vrf forwarding ")
+
+// markNeeded: what an interface or VRF unknown to Netspoc refers to is
+// protected completely: the command itself, every object every one of its
+// references names (also a second reference of the same kind in one line), and
+// its sub-commands.
+//vc:ghost var lastRefMarked int
+//vc:func (*State).markNeeded
+//vc:  assign after "s.markNeeded(s.a.lookup[prefix][name])" lastRefMarked = i
+//vc:  assert[C07] at "s.markNeeded(s.a.lookup[prefix][name])" @referencedObjectOfThatNameProtected prefix == c.typ.ref[i] && name == c.ref[i]
+//vc:  invariant[C07] 2 "for i, name := range c.ref" @everyReferenceFollowed rangeindex >= 0 ==> lastRefMarked == rangeindex
+//vc:  assert[C07] at "s.markNeeded(c.sub)" @subCommandsProtected arg1 == c.sub
